@@ -43,6 +43,16 @@
    (known finding F23, DESIGN F9): in the larger scenarios this model itself violates C13_Rollback /
    C13_Discard - a prediction; the verdict comes from the real traces.
 
+   Resource claims (DRA). A scenario may publish a node's GPUs as DRA devices (cfg.nodes[n].dra = cfg.nodes[n].gpu > 0:
+   one ResourceSlice, no extended resource) and give a pod ONE ResourceClaim for one such device (cfg.pods[p].claim =
+   object name, .pcn = name of the pod's claim entry - different from the object name for a template-generated claim -,
+   .dev = index of the device a Running pod holds). In THIS model such a pod is a whole-GPU pod (kind "whole", gpu 1):
+   node, workload and queue accounting of a DRA GPU is the accounting of a whole GPU (the D_ monitors of StmtTrace
+   confirm that on the real code). Which device the DRA allocator picks, what the pod and the DRA manager remember
+   about it across evict / un-evict, and that an undo restores it, is NOT modelled here: it is judged on the real
+   observations only (StmtTrace!C13_ClaimsObs, C14_ClaimDevicesObs); the fields claim / pcn / dev are not read by
+   this module.
+
    Quantities: GPUs in milli-GPU (1 device = 1000), CPU in milli-cores, shared GPU memory in units
    with one device = cfg.nodes[n].gmem units (100 when the node has no gpu.memory label). All scenario data lives in the variable cfg (constant along a
    behaviour) so that trace validation can load scenarios from the trace.                       *)
